@@ -206,6 +206,7 @@ def rule_r1(ctx) -> List[R.Inst]:
                 if k in assigned:
                     dup.append(k)
                 assigned[k] = (C.self_attr(n.targets[0]), n)
+    undec_fields = []
     for k, (fmt, size, count) in enumerate(zip(fmts, sizes, counts)):
         fz = frozen[k] if k < len(frozen) else None
         nm = names[k] if k < len(names) else f"#{k}"
@@ -238,13 +239,25 @@ def rule_r1(ctx) -> List[R.Inst]:
             scalar = isinstance(v, ast.Subscript) and isinstance(v.value, ast.Subscript)     # meta_fields[k][0]
             if fz and fz["fmt"] == "s" and fz["name"] != "old_genre" and call_name(v) != "decode_replace":
                 probs.append(f"character field '{nm}' is not decoded")
-            if fz and fz["fmt"] != "s" and fz["count"] == 1 and not scalar:
+            # (a scalar passed through a wrapper: round() is lossy — the decoded value is no longer the field; anything else is not read)
+            wrapped = None
+            if not scalar and isinstance(v, ast.Call) and v.args and isinstance(v.args[0], ast.Subscript) and isinstance(v.args[0].value, ast.Subscript):
+                wrapped = v
+            if fz and fz["fmt"] != "s" and fz["count"] == 1 and wrapped is not None:
+                if call_name(wrapped) == "round":
+                    probs.append(f"'{nm}' is not the decoded header field but '{unparse(v)}': the float32 the file holds is rounded, so "
+                                 f"{'every time integrated from the header tempo drifts (a note 120 measures in lands several ms off)' if nm == 'bpm' else 'the value read is not the value stored'}")
+                elif call_name(wrapped) not in ("float", "int"):
+                    undec_fields.append((key, node, f"'{nm}' is read through '{unparse(v)[:50]}', a wrapper that is not modelled"))
+            elif fz and fz["fmt"] != "s" and fz["count"] == 1 and not scalar:
                 probs.append(f"scalar field '{nm}' is assigned the whole list")
             if fz and fz["fmt"] != "s" and fz["count"] > 1 and scalar:
                 probs.append(f"array field '{nm}' keeps only its first element")
         if probs:
             insts.append(R.viol(rid, key, file, assigned.get(k, (None, cls.node))[1].lineno, "; ".join(probs),
                                 construct=f"{key}: " + "; ".join(probs)))
+        elif undec_fields and undec_fields[-1][0] == key:
+            insts.append(R.undec(rid, key, file, undec_fields[-1][1].lineno, undec_fields[-1][2]))
         else:
             insts.append(R.ok(rid, key, file, assigned[k][1].lineno, idiom=f"'{fmt}' x{count} = {size} bytes -> self.{nm}"))
     # character fields: NUL padding removed, decoded as ASCII with other bytes dropped (what the library defines for these fields:
